@@ -8,12 +8,14 @@ Effect atoms: "read", "write", "free", "alloc_own" (allocation of one of the op'
 (allocation tied to nothing / to a value that is not a result of the op), "unknown" (op declares nothing).
 candidate(op)  = not terminator, not symbol, effects*(op) <= {read, alloc_own}
 effects*(op)   = own effects, plus (recursive ops) effects* of every op in every block of every region
-precise liveness (what a complete DCE leaves): least S with
-    op in S  <=  block of op reachable in its region, parent in S (or top level),
-                 and (not candidate(op)  or  some result of op is an operand of an op in S)
-    where, for recursive ops, effects* only counts ops in *reachable* blocks (unreachable blocks are erased)
-one-round model (`precise=False`, the behaviour of a single region_dce round): liveness is propagated through ops
-    nested in ops that are themselves going to be removed; survivors = live ops whose ancestors are live.
+one round (`one_round`, DESIGN's oracle = one region_dce / runRegionDCE round): live = least set with
+    op live <= op sits in a chain of reachable blocks and (not candidate(op) or a result is an operand of a live op);
+    survivors = live ops whose ancestors are live (ops nested in an op that is going to be removed still propagate).
+complete (`complete`, the property's end state "no removable operation or unreachable block remains"): rounds
+    iterated on the shrinking module until a round removes nothing. A second round is needed when a definition was
+    only used inside a removed op, or when a recursive op's only observable effect sat in an unreachable block.
+precise (`precise_survivors`): least S with op in S <= reachable, parent in S, (not candidate or used by S); equals
+    `complete` except for graph-region use-def cycles that pass through a region of one of their members.
 trivial fixpoint (what iterated "erase if trivially dead" can remove at most): least R with
     op in R <= candidate(op) and every user of every result is in R or nested in an op of R   (all blocks count).
 """
@@ -250,33 +252,65 @@ def why_not(n: Node, dev=(), allblocks=True):
     return "+".join(bad) if bad else None
 
 
-def survivors(s: Snap, precise=True, dev=()):
-    """ids a complete DCE leaves (precise) / a single region_dce round leaves (precise=False)."""
+def precise_survivors(s: Snap, dev=()):
+    """Least set closed under 'reachable block, parent kept, and (not candidate or used by a kept op)'; recursive
+    effects over reachable blocks only. Stricter than what iterated DCE reaches on graph-region style use-def cycles
+    that pass through a region (observation counter only)."""
     memo = {}
-    cand = {n.id: candidate(n, dev, memo, allblocks=not precise) for n in s.nodes}
-    if precise:
-        live = set()
-        changed = True
-        while changed:
-            changed = False
-            for n in s.nodes:
-                if n.id in live or not n.blk.reach:
-                    continue
-                if n.parent is not None and n.parent.id not in live:
-                    continue
-                if not cand[n.id] or any(u.id in live for u in n.users):
-                    live.add(n.id)
-                    changed = True
-        return live
-    vis = {}
-    for n in s.nodes:  # pre-order: parents first
-        vis[n.id] = n.blk.reach and (n.parent is None or vis[n.parent.id])
+    cand = {n.id: candidate(n, dev, memo, allblocks=False) for n in s.nodes}
     live = set()
     changed = True
     while changed:
         changed = False
         for n in s.nodes:
-            if n.id in live or not vis[n.id]:
+            if n.id in live or not n.blk.reach:
+                continue
+            if n.parent is not None and n.parent.id not in live:
+                continue
+            if not cand[n.id] or any(u.id in live for u in n.users):
+                live.add(n.id)
+                changed = True
+    return live
+
+
+def one_round(s: Snap, alive=None, dev=()):
+    """ids left by ONE liveness round (xDSL region_dce / MLIR runRegionDCE after erasing unreachable blocks) applied
+    to the module restricted to the ops in `alive`: live = lfp of 'in a reachable block chain and (not candidate or a
+    result used by a live op)', where ops nested in ops that are going to be removed still propagate liveness;
+    survivors = live ops whose ancestors are live."""
+    if alive is None:
+        alive = set(s.by_id)
+    memo = {}
+
+    def eff(n):
+        if n.id in memo:
+            return memo[n.id]
+        _t, _s, e, rec = entry(n.name, dev)
+        if rec:
+            acc = set(e)
+            for reg in n.regions:
+                for b in reg:
+                    for c in b.ops:
+                        if c.id in alive:
+                            acc |= eff(c)
+            e = frozenset(acc)
+        memo[n.id] = e
+        return e
+
+    cand = {}
+    vis = {}
+    for n in s.nodes:  # pre-order: parents first
+        if n.id not in alive:
+            continue
+        t, sy, _e, _r = entry(n.name, dev)
+        cand[n.id] = (not t) and (not sy) and eff(n) <= HARMLESS
+        vis[n.id] = n.blk.reach and (n.parent is None or vis.get(n.parent.id, False))
+    live = set()
+    changed = True
+    while changed:
+        changed = False
+        for n in s.nodes:
+            if n.id not in alive or n.id in live or not vis[n.id]:
                 continue
             if not cand[n.id] or any(u.id in live for u in n.users):
                 live.add(n.id)
@@ -286,6 +320,19 @@ def survivors(s: Snap, precise=True, dev=()):
         if n.id in live and (n.parent is None or n.parent.id in out):
             out.add(n.id)
     return out
+
+
+def complete(s: Snap, dev=()):
+    """ids left when liveness rounds are iterated until nothing is removable any more (the property's end state:
+    `one_round` applied to the result removes nothing). Returns (survivors, number of rounds that removed something)."""
+    cur = set(s.by_id)
+    rounds = 0
+    while True:
+        nxt = one_round(s, cur, dev)
+        if nxt == cur:
+            return cur, rounds
+        cur = nxt
+        rounds += 1
 
 
 def surviving_blocks(s: Snap, surv: set):
